@@ -42,9 +42,9 @@ def plan(pid, tier):
     if pid == "C20":
         if tier == "quick":
             return [R("scalar_full", "scalar", k[:1], vals="full"),
-                    R("scalar_small", "scalar", k[1:], vals="small"),
-                    R("struct2", "struct", k[1:2], n=2),
-                    R("target", "target", k[2:4]),
+                    R("scalar_small", "scalar", k[1:5], vals="small"),
+                    R("struct2", "struct", k[5:6], n=2),
+                    R("target", "target", k[6:7]),
                     R("std1", "std", KINDS, n=1),
                     R("sim", "sim", KINDS, n=4, sim=40)]
         return [R("scalar_full", "scalar", KINDS, vals="full"),
@@ -67,9 +67,9 @@ def plan(pid, tier):
                 R("sim", "sim", KINDS, n=6, sim=600)]
     if pid == "C22":
         if tier == "quick":
-            return [R("strip", "strip", k[:2], n=3, maxret=2),
-                    R("strip1", "strip", k[2:], n=2, maxret=1)]
-        return [R("strip", "strip", KINDS, n=4, maxret=2),
+            return [R("strip", "strip", k[:1], n=2, maxret=2),
+                    R("strip1", "strip", k[1:], n=1, maxret=1)]
+        return [R("strip", "strip", KINDS, n=3, maxret=2),
                 R("strip3", "strip", k[:2], n=3, maxret=3)]
     raise vf.MachineryError("engine optionlang does not serve " + pid)
 
@@ -81,7 +81,7 @@ def case_key(o):
 
 def shape(v):
     if v["k"] == "msg":
-        return "{" + ",".join(("[x]" if f["nm"]["ext"] else "f") + ("" if f["colon"] else "!") + shape(f["v"]) for f in v["fs"]) + "}"
+        return "{" + ",".join(("[x]" if f["nm"]["ext"] else "f") + ("" if f.get("colon") else "!") + shape(f["v"]) for f in v["fs"]) + "}"
     if v["k"] == "lst":
         return "[" + ",".join(shape(f["v"]) for f in v["fs"]) + "]"
     return v["k"] + ("-" if v["neg"] else "")
@@ -101,7 +101,7 @@ def nontrivial(f):
 def render_stmt(s):
     def val(v):
         if v["k"] == "msg":
-            return "{" + " ".join((("[p.%s]" % f["nm"]["n"]) if f["nm"]["ext"] else f["nm"]["n"]) + (":" if f["colon"] else "") +
+            return "{" + " ".join((("[p.%s]" % f["nm"]["n"]) if f["nm"]["ext"] else f["nm"]["n"]) + (":" if f.get("colon") else "") +
                                   " " + val(f["v"]) for f in v["fs"]) + "}"
         if v["k"] == "lst":
             return "[" + ", ".join(val(f["v"]) for f in v["fs"]) + "]"
